@@ -260,6 +260,11 @@ impl<'a, 'b: 'a, R: Read> RowParser<'a, 'b, R> {
                 break;
             }
 
+            if self.parser.lexer.cur.value.is_none() {
+                // End of input inside the row
+                break;
+            }
+
             let val = self.parser.parse_value()?;
             dict.insert(cols[col_num].name.clone(), val);
 
